@@ -278,7 +278,7 @@ func (g *Gen) literal() spec.Operand {
 	case 0, 1, 2:
 		return g.numLiteral()
 	case 3, 4:
-		pool := []string{"a", "b", "", "1", "ab", "a'b", `a"b`, `a\b`, "é"}
+		pool := []string{"a", "b", "", "1", "ab", "a'b", `a"b`, `a\b`, "é", `a\`, `\`, `\\`, `'`, `"`, `\'`, `a\"`, `/`, `)]`, `&&`}
 		s := pool[g.R.Intn(len(pool))]
 		if g.R.Intn(3) > 0 {
 			s = strPool[g.R.Intn(len(strPool))]
